@@ -43,8 +43,9 @@ type Options struct {
 
 type merged struct {
 	WorkerResult
-	nontriv map[string]struct{}
-	fatals  []Deviation
+	nontriv    map[string]struct{}
+	fatals     []Deviation
+	harnessErr string
 }
 
 func hostScratch() string {
@@ -60,6 +61,7 @@ func hostScratch() string {
 // hang with the culprit case attributed.
 func runWorker(opt Options, c *Check, shard, n int, deadline time.Time, out *merged, mu *sync.Mutex) {
 	resume := int64(-1)
+	lastCulprit := int64(-2)
 	var skip []string
 	exe := opt.Exe
 	if exe == "" {
@@ -170,6 +172,15 @@ func runWorker(opt Options, c *Check, shard, n int, deadline time.Time, out *mer
 		if opt.OnlyIndex >= 0 {
 			return
 		}
+		if culprit == lastCulprit || culprit <= 0 && crashes > 3 {
+			// the worker dies before/at the same case again: a broken harness, not a finding
+			mu.Lock()
+			out.Complete = false
+			out.harnessErr = fmt.Sprintf("worker for shard %d keeps dying at case %d: %s", shard, culprit, msg)
+			mu.Unlock()
+			return
+		}
+		lastCulprit = culprit
 		skip = append(skip, strconv.FormatInt(culprit, 10))
 		if crashes > 200 {
 			mu.Lock()
@@ -366,6 +377,10 @@ func Coordinate(opt Options) int {
 		}(s)
 	}
 	wg.Wait()
+	if m.harnessErr != "" {
+		fmt.Printf("HARNESS ERROR property=%s %s\n", opt.Prop, m.harnessErr)
+		return 2
+	}
 
 	// fatals go through findings classification too
 	for _, d := range m.fatals {
